@@ -62,12 +62,19 @@ def build(rng, case):
     else:
         sg = [1 if x else -1 for x in case["tilt_signs"]]
         cell = np.array([[a, 0, 0], [sg[0] * rng.uniform(0.05, 0.45) * a, b, 0], [sg[1] * rng.uniform(0.05, 0.45) * a, sg[2] * rng.uniform(0.05, 0.45) * b, c]])
+        zero = int(rng.integers(0, 8))          # every tilt pattern incl. exactly one or two tilt factors equal to zero
+        if zero in (1, 2, 3):
+            cell[[1, 2, 2][zero - 1], [0, 0, 1][zero - 1]] = 0.0
+        elif zero == 4:
+            cell[1, 0] = cell[2, 0] = 0.0
+        elif zero == 5:
+            cell[2, 0] = cell[2, 1] = 0.0
     pos = rng.uniform(-0.3, 1.3, (n, 3)).dot(cell)
     if rng.integers(3) == 0:
         pos = np.round(pos, 3)
     kw = dict(atom_types=[int(x) for x in rng.integers(0, nt, n)], positions=pos, cell=cell, atom_type_elements=els,
               atom_type_masses=[masses[e] for e in els], atom_type_labels=["%s_%d" % (e, t) if rng.integers(2) else e for t, e in enumerate(els)],
-              charges=np.round(rng.uniform(-2, 2, n), int(rng.integers(2, 9))), groups=[int(x) for x in rng.integers(0, 4, n)])
+              charges=np.round(rng.uniform(-2, 2, n) * (1 if not many else 12), int(rng.integers(2, 9))), groups=[int(x) for x in rng.integers(0, 4 if not many else 25, n)])
     if rng.integers(2):
         kw["pair_coeffs"] = [coeff_string(rng, "p%d" % t) for t in range(nt)]
     for kind in atomsgen.KNAMES:
@@ -283,6 +290,7 @@ def run_case(case, ctx):
     st.seen("style", style)
     st.seen("cell", case["cell"] + ("" if case["cell"] == "ortho" else str(case["tilt_signs"])))
     st.seen("via", case["via"])
+    st.seen("tilt_zero_pattern", "%d%d%d" % (a.cell[1, 0] != 0, a.cell[2, 0] != 0, a.cell[2, 1] != 0))
     if case.get("many_types"):
         st.count("files_with_two_digit_type_ids")
         for k in atomsgen.KNAMES:
